@@ -141,6 +141,42 @@ def generate(g, tier):
     # the iteration limit of WHILE: the error is located at the WHILE line (no entry for the body that ran last)
     for t, fr in (('STRING a\nWHILE TRUE\n    PASS', [[None, 2, None]]), ('IF TRUE\n    WHILE n,n>=0\n        STRING x\n        PASS', [[None, 1, None], [None, 2, None]])):
         cases.append(dict(op='compile', timeout=120, src=dict(text=t), meta=dict(family='while-limit', frames=fr, fault='limit', strict_line2=True)))
+    # a loop condition / count that is fine at first and faulty at a LATER evaluation (after the body has run once or more): the
+    # error is located at the loop line, with no entry for the body that ran last — at every depth, in functions too
+    for _ in range(count(tier, 40, 300)):
+        depth = g.r.randint(0, 2)
+        passes = g.r.randint(1, 3)
+        ind = '    ' * depth
+        pre = [('    ' * d) + 'IF TRUE' for d in range(depth)]
+        shape = g.r.choice(['while', 'while-counter', 'repeat', 'while-type'])
+        if shape == 'while': body = [ind + f'VAR n {passes}', ind + 'WHILE 4/n > 0', ind + '    STRING x', ind + '    VAR n n-1']; loop_at = 2
+        elif shape == 'while-counter': body = [ind + f'VAR n {passes}', ind + 'WHILE c,10/(n-c) > 0', ind + '    STRING x', ind + '    PASS']; loop_at = 2
+        elif shape == 'repeat': body = [ind + 'VAR n 1', ind + 'REPEAT 4/n', ind + '    STRING x', ind + '    VAR n n-1']; loop_at = 2
+        else: body = [ind + 'VAR n 3', ind + 'WHILE n-1 >= 0', ind + '    STRING x', ind + '    VAR n "s"']; loop_at = 2
+        infunc = g.chance(0.3)
+        if infunc:
+            lines = ['FUNC lp'] + ['    ' + l for l in pre + body] + ['STRING before', 'RUN lp']
+            frames = [[None, len(lines), len(lines)]] + [[None, 1 + d + 1, None] for d in range(depth)] + [[None, 1 + depth + loop_at, None]]
+        else:
+            lines = pre + body
+            frames = [[None, d + 1, None] for d in range(depth)] + [[None, depth + loop_at, None]]
+        cases.append(dict(op='compile', src=dict(text='\n'.join(lines)), meta=dict(family='late-condition', frames=frames, fault=shape)))
+    # a function declared more than once with the SAME text on different lines: the declaration in force is the latest one, and an
+    # error inside the body names ITS lines
+    for _ in range(count(tier, 30, 200)):
+        gap = g.r.randint(0, 3)
+        decl = ['FUNC f a', '    STRING in-f', '    $STRING 10/a']
+        filler = [f'STRING fill{k}' for k in range(gap)]
+        ndecl = g.r.randint(2, 3)
+        lines = []
+        last_start = 0
+        for k in range(ndecl):
+            last_start = len(lines) + 1
+            lines += decl + filler
+        if g.chance(0.4): lines += ['RUN f 5']
+        lines += ['RUN f 0']
+        frames = [[None, len(lines), len(lines)], [None, last_start + 2, last_start + 2]]
+        cases.append(dict(op='compile', src=dict(text='\n'.join(lines)), meta=dict(family='redeclared', frames=frames, fault='div0')))
     # tab errors name an ill-indented line (also covered by C03)
     for _ in range(count(tier, 40, 300)):
         n = g.r.randint(1, 8)
